@@ -18,17 +18,31 @@
 (*  "array" : evaluation of a CSE array formula: the result is fitted to   *)
 (*            the shape of the context address on top of the stack         *)
 (*  "plain" : a two cell chain in non-iterative mode                       *)
+(*  "ref"   : a formula x = d + CELL("contents", OFFSET(..)): its first    *)
+(*            evaluation loads CELL (apply_meta stores the name space of   *)
+(*            the formula in the metadata of the library function, which   *)
+(*            every workbook and thread shares), evaluates the formula     *)
+(*            cell d, then calls CELL, which reads a cell through the      *)
+(*            evaluator of a name space                                    *)
 (* Every formula evaluation pushes its context (None for ordinary cells)   *)
 (* on the context stack and pops it when done, as eval_func does.          *)
+(*                                                                         *)
+(* meta is the 'name_space' entry of the metadata of a library function:   *)
+(* one per process whatever SHARED says.  calling[t] is the per-thread     *)
+(* stack of calling name spaces kept by refs_wrapper.  The constant        *)
+(* METAREAD is the code before the repair D61: the callee takes the        *)
+(* evaluator from meta instead of the top of calling[t]; TLC must find an  *)
+(* Isolation counterexample for it.                                        *)
 (***************************************************************************)
 EXTENDS Naturals, Integers, Sequences, FiniteSets, TLC, Json
 
 CONSTANTS Thr,        \* thread ids, e.g. {1, 2}
           Work,       \* [Thr -> record] workload of each thread
-          SHARED      \* BOOLEAN
+          SHARED,     \* BOOLEAN
+          METAREAD    \* BOOLEAN: callees read the shared function metadata (D61)
 
-VARIABLES pc, loc, trk, ctx, result
-vars == <<pc, loc, trk, ctx, result>>
+VARIABLES pc, loc, trk, ctx, result, meta, calling
+vars == <<pc, loc, trk, ctx, result, meta, calling>>
 
 NS(t) == IF SHARED THEN 0 ELSE t          \* which namespace thread t uses
 Spaces == IF SHARED THEN {0} ELSE Thr
@@ -46,6 +60,8 @@ Init ==
   /\ trk = [k \in Spaces |-> TrkInit]
   /\ ctx = [k \in Spaces |-> CtxInit]
   /\ result = [t \in Thr |-> <<>>]
+  /\ meta = 0                              \* nobody has loaded the function yet
+  /\ calling = [t \in Thr |-> <<>>]
 
 \* in_array_formula_context(addr).__enter__ / __exit__ / ctx_address
 Push(k, addr) == [ctx EXCEPT ![k].stack = Append(@, addr)]
@@ -62,38 +78,38 @@ IterStep(t) ==
   LET w == Work[t]  k == NS(t)  me == <<t, "x">> IN
   \/ /\ pc[t] = "start" /\ w.kind = "iter"          \* tracker(iterations, tolerance)
      /\ trk' = [trk EXCEPT ![k].iter = 0, ![k].n = w.n, ![k].tol = w.tol]
-     /\ Goto(t, "pass") /\ UNCHANGED <<loc, ctx, result>>
+     /\ Goto(t, "pass") /\ UNCHANGED <<loc, ctx, result, meta, calling>>
   \/ /\ pc[t] = "pass"                              \* inc_iteration_number
      /\ trk' = [trk EXCEPT ![k].iter = @ + 1, ![k].todo = {}, ![k].computed = {}]
-     /\ Goto(t, "need") /\ UNCHANGED <<loc, ctx, result>>
+     /\ Goto(t, "need") /\ UNCHANGED <<loc, ctx, result, meta, calling>>
   \/ /\ pc[t] = "need"                              \* needs_calc / start_calcs
      /\ IF me \in trk[k].computed
         THEN Goto(t, "done?") /\ UNCHANGED loc
         ELSE /\ loc' = [loc EXCEPT ![t].wip = TRUE, ![t].prev = loc[t].val]
              /\ Goto(t, "ctxcall")
-     /\ UNCHANGED <<trk, ctx, result>>
+     /\ UNCHANGED <<trk, ctx, result, meta, calling>>
   \/ /\ pc[t] = "ctxcall" /\ CtxCall(t, NoCtx)
-     /\ Goto(t, "ctxenter") /\ UNCHANGED <<loc, trk, result>>
+     /\ Goto(t, "ctxenter") /\ UNCHANGED <<loc, trk, result, meta, calling>>
   \/ /\ pc[t] = "ctxenter" /\ CtxEnter(t)
-     /\ Goto(t, "compute") /\ UNCHANGED <<loc, trk, result>>
+     /\ Goto(t, "compute") /\ UNCHANGED <<loc, trk, result, meta, calling>>
   \/ /\ pc[t] = "compute"                           \* the lambda: reads itself (wip -> prev)
      /\ loc' = [loc EXCEPT ![t].v1 = (IF loc[t].prev < 0 THEN 0 ELSE loc[t].prev) \div 2 + w.b,
                            ![t].shape = Top(t)]
-     /\ Goto(t, "ctxexit") /\ UNCHANGED <<trk, ctx, result>>
+     /\ Goto(t, "ctxexit") /\ UNCHANGED <<trk, ctx, result, meta, calling>>
   \/ /\ pc[t] = "ctxexit" /\ CtxExit(t)
-     /\ Goto(t, "set") /\ UNCHANGED <<loc, trk, result>>
+     /\ Goto(t, "set") /\ UNCHANGED <<loc, trk, result, meta, calling>>
   \/ /\ pc[t] = "set"                               \* value setter
      /\ loc' = [loc EXCEPT ![t].val = loc[t].v1, ![t].wip = FALSE]
      /\ trk' = [trk EXCEPT ![k].computed = @ \cup {me},
                            ![k].todo = IF loc[t].prev >= 0 /\ Abs(loc[t].v1 - loc[t].prev) <= trk[k].tol
                                        THEN @ ELSE @ \cup {me}]
-     /\ Goto(t, "done?") /\ UNCHANGED <<ctx, result>>
+     /\ Goto(t, "done?") /\ UNCHANGED <<ctx, result, meta, calling>>
   \/ /\ pc[t] = "done?"                             \* progress_tracker.done
      /\ IF trk[k].iter >= trk[k].n \/ trk[k].todo = {}
         THEN /\ result' = [result EXCEPT ![t] = <<loc[t].val, trk[k].iter>>]
              /\ Goto(t, "end")
         ELSE /\ Goto(t, "pass") /\ UNCHANGED result
-     /\ UNCHANGED <<loc, trk, ctx>>
+     /\ UNCHANGED <<loc, trk, ctx, meta, calling>>
 
 (* ---------------- "array" ---------------- *)
 \* value is an h x w array; fit_to_range trims / repeats it to the shape of
@@ -104,41 +120,76 @@ Fit(shape, target) ==
 ArrayStep(t) ==
   LET w == Work[t] IN
   \/ /\ pc[t] = "start" /\ w.kind = "array" /\ CtxCall(t, w.target)
-     /\ Goto(t, "aenter") /\ UNCHANGED <<loc, trk, result>>
+     /\ Goto(t, "aenter") /\ UNCHANGED <<loc, trk, result, meta, calling>>
   \/ /\ pc[t] = "aenter" /\ CtxEnter(t)
-     /\ Goto(t, "afit") /\ UNCHANGED <<loc, trk, result>>
+     /\ Goto(t, "afit") /\ UNCHANGED <<loc, trk, result, meta, calling>>
   \/ /\ pc[t] = "afit"
      /\ loc' = [loc EXCEPT ![t].shape = Fit(w.shape, Top(t))]
-     /\ Goto(t, "aexit") /\ UNCHANGED <<trk, ctx, result>>
+     /\ Goto(t, "aexit") /\ UNCHANGED <<trk, ctx, result, meta, calling>>
   \/ /\ pc[t] = "aexit" /\ CtxExit(t)
      /\ result' = [result EXCEPT ![t] = loc[t].shape]
-     /\ Goto(t, "end") /\ UNCHANGED <<loc, trk>>
+     /\ Goto(t, "end") /\ UNCHANGED <<loc, trk, meta, calling>>
 
 (* ---------------- "plain" ---------------- *)
 PlainStep(t) ==
   LET w == Work[t] IN
   \/ /\ pc[t] = "start" /\ w.kind = "plain" /\ CtxCall(t, NoCtx)
-     /\ Goto(t, "p2enter") /\ UNCHANGED <<loc, trk, result>>
+     /\ Goto(t, "p2enter") /\ UNCHANGED <<loc, trk, result, meta, calling>>
   \/ /\ pc[t] = "p2enter" /\ CtxEnter(t)              \* outer cell c2 begins
-     /\ Goto(t, "p1call") /\ UNCHANGED <<loc, trk, result>>
+     /\ Goto(t, "p1call") /\ UNCHANGED <<loc, trk, result, meta, calling>>
   \/ /\ pc[t] = "p1call" /\ CtxCall(t, NoCtx)        \* it reads c1: nested evaluation
-     /\ Goto(t, "p1enter") /\ UNCHANGED <<loc, trk, result>>
+     /\ Goto(t, "p1enter") /\ UNCHANGED <<loc, trk, result, meta, calling>>
   \/ /\ pc[t] = "p1enter" /\ CtxEnter(t)
-     /\ Goto(t, "p1calc") /\ UNCHANGED <<loc, trk, result>>
+     /\ Goto(t, "p1calc") /\ UNCHANGED <<loc, trk, result, meta, calling>>
   \/ /\ pc[t] = "p1calc"
      /\ loc' = [loc EXCEPT ![t].v1 = w.x0 + 1, ![t].shape = Top(t)]
-     /\ Goto(t, "p1exit") /\ UNCHANGED <<trk, ctx, result>>
+     /\ Goto(t, "p1exit") /\ UNCHANGED <<trk, ctx, result, meta, calling>>
   \/ /\ pc[t] = "p1exit" /\ CtxExit(t)
-     /\ Goto(t, "p2calc") /\ UNCHANGED <<loc, trk, result>>
+     /\ Goto(t, "p2calc") /\ UNCHANGED <<loc, trk, result, meta, calling>>
   \/ /\ pc[t] = "p2calc"
      /\ loc' = [loc EXCEPT ![t].v2 = loc[t].v1 + 1,
                            ![t].shape = IF loc[t].shape = NoCtx THEN Top(t) ELSE loc[t].shape]
-     /\ Goto(t, "p2exit") /\ UNCHANGED <<trk, ctx, result>>
+     /\ Goto(t, "p2exit") /\ UNCHANGED <<trk, ctx, result, meta, calling>>
   \/ /\ pc[t] = "p2exit" /\ CtxExit(t)
      /\ result' = [result EXCEPT ![t] = <<loc[t].v2, loc[t].shape>>]
-     /\ Goto(t, "end") /\ UNCHANGED <<loc, trk>>
+     /\ Goto(t, "end") /\ UNCHANGED <<loc, trk, meta, calling>>
 
-Next == \E t \in Thr : IterStep(t) \/ ArrayStep(t) \/ PlainStep(t)
+(* ---------------- "ref" ---------------- *)
+\* the cells of workbook k hold Work[k].x0; reading "through name space k"
+\* returns the value of workbook k
+RefStep(t) ==
+  LET w == Work[t] IN
+  \/ /\ pc[t] = "start" /\ w.kind = "ref" /\ CtxCall(t, NoCtx)
+     /\ Goto(t, "renter") /\ UNCHANGED <<loc, trk, result, meta, calling>>
+  \/ /\ pc[t] = "renter" /\ CtxEnter(t)
+     /\ Goto(t, "rload") /\ UNCHANGED <<loc, trk, result, meta, calling>>
+  \/ /\ pc[t] = "rload"                            \* apply_meta: meta['name_space'] = ns
+     /\ meta' = t
+     /\ Goto(t, "rdcall") /\ UNCHANGED <<loc, trk, ctx, result, calling>>
+  \/ /\ pc[t] = "rdcall" /\ CtxCall(t, NoCtx)      \* the formula reads cell d first
+     /\ Goto(t, "rdenter") /\ UNCHANGED <<loc, trk, result, meta, calling>>
+  \/ /\ pc[t] = "rdenter" /\ CtxEnter(t)
+     /\ Goto(t, "rdcalc") /\ UNCHANGED <<loc, trk, result, meta, calling>>
+  \/ /\ pc[t] = "rdcalc"
+     /\ loc' = [loc EXCEPT ![t].v1 = w.x0 + 1, ![t].shape = Top(t)]
+     /\ Goto(t, "rdexit") /\ UNCHANGED <<trk, ctx, result, meta, calling>>
+  \/ /\ pc[t] = "rdexit" /\ CtxExit(t)
+     /\ Goto(t, "rpush") /\ UNCHANGED <<loc, trk, result, meta, calling>>
+  \/ /\ pc[t] = "rpush"                            \* refs_wrapper: push the caller's ns
+     /\ calling' = [calling EXCEPT ![t] = Append(@, t)]
+     /\ Goto(t, "rcall") /\ UNCHANGED <<loc, trk, ctx, result, meta>>
+  \/ /\ pc[t] = "rcall"                            \* CELL reads a cell through a name space
+     /\ LET k == IF METAREAD THEN meta ELSE calling[t][Len(calling[t])]
+        IN  loc' = [loc EXCEPT ![t].v2 = loc[t].v1 + Work[k].x0]
+     /\ Goto(t, "rpop") /\ UNCHANGED <<trk, ctx, result, meta, calling>>
+  \/ /\ pc[t] = "rpop"
+     /\ calling' = [calling EXCEPT ![t] = SubSeq(@, 1, Len(@) - 1)]
+     /\ Goto(t, "rexit") /\ UNCHANGED <<loc, trk, ctx, result, meta>>
+  \/ /\ pc[t] = "rexit" /\ CtxExit(t)
+     /\ result' = [result EXCEPT ![t] = <<loc[t].v2, loc[t].shape>>]
+     /\ Goto(t, "end") /\ UNCHANGED <<loc, trk, meta, calling>>
+
+Next == \E t \in Thr : IterStep(t) \/ ArrayStep(t) \/ PlainStep(t) \/ RefStep(t)
 Spec == Init /\ [][Next]_vars
 
 (* ---- what each workload returns when it runs alone ---- *)
@@ -153,10 +204,12 @@ Solo(t) ==
   CASE w.kind = "iter"  -> SoloIter(0 \div 2 + w.b, -1, 1, w.n, w.tol, w.b)
     [] w.kind = "array" -> w.target
     [] w.kind = "plain" -> <<w.x0 + 2, NoCtx>>
+    [] w.kind = "ref"   -> <<2 * w.x0 + 1, NoCtx>>
 
 Isolation == \A t \in Thr : pc[t] = "end" => result[t] = Solo(t)
 StackBalanced == (\A t \in Thr : pc[t] = "end") =>
                    \A k \in Spaces : ctx[k].stack = <<NoCtx>>
+CallingBalanced == (\A t \in Thr : pc[t] = "end") => \A t \in Thr : calling[t] = <<>>
 AllEnd == \A t \in Thr : pc[t] = "end"
 
 \* the solo results, for the harness (printed once, in the initial state)
